@@ -59,8 +59,15 @@ pub broadcast axiom fn ax_cmp_v(a: f64, b: f64) ensures #[trigger] a.partial_cmp
 pub broadcast axiom fn ax_eq_v(a: f64, b: f64) ensures #[trigger] a.eq_spec(&b) == feq(a, b);
 pub broadcast axiom fn ax_cmp_r(a: &f64, b: &f64) ensures #[trigger] a.partial_cmp_spec(&b) == fcmp(*a, *b);
 pub broadcast axiom fn ax_eq_r(a: &f64, b: &f64) ensures #[trigger] a.eq_spec(&b) == feq(*a, *b);
+// IEEE facts about comparison that do not depend on the operands' values (discharged for ALL pairs of
+// f64 by the loop-free Kani harness `ieee_cmp_flip`): a < b  <=>  b > a, equality is symmetric, an
+// unordered pair is unordered both ways; == agrees with partial_cmp.
 pub axiom fn ax_obeys()
     ensures
+        forall|a: f64, b: f64| (#[trigger] fcmp(a, b) == Some(core::cmp::Ordering::Less)) == (fcmp(b, a) == Some(core::cmp::Ordering::Greater)),
+        forall|a: f64, b: f64| (#[trigger] fcmp(a, b) == Some(core::cmp::Ordering::Equal)) == (fcmp(b, a) == Some(core::cmp::Ordering::Equal)),
+        forall|a: f64, b: f64| (#[trigger] fcmp(a, b) is None) == (fcmp(b, a) is None),
+        forall|a: f64, b: f64| #[trigger] feq(a, b) == (fcmp(a, b) == Some(core::cmp::Ordering::Equal)),
         <f64 as AddSpec<f64>>::obeys_add_spec(),
         <f64 as AddSpec<&f64>>::obeys_add_spec(),
         <&f64 as AddSpec<f64>>::obeys_add_spec(),
@@ -159,6 +166,35 @@ pub fn __as_f64<T: ToF64>(x: T) -> (r: f64) ensures r == x.to_f64_spec() { x.__t
 // R13: identity on f64 (see rule R13 of the extractor)
 pub fn __idf(x: f64) -> (r: f64) ensures r == x { x }
 
+// ---- prelude fragment: ideal.rs ----
+// Floating point, layer 2 ("idealised real" mode of DESIGN.md 3.2): machine arithmetic treated as
+// mathematical.  rv maps a float to the real it denotes; rounding, overflow, NaN and signed zero are
+// ignored.  Used only where the property is a statement of real arithmetic.
+pub uninterp spec fn rv(x: f64) -> real;
+pub broadcast axiom fn ax_rv_add(a: f64, b: f64) ensures rv(#[trigger] fadd(a, b)) == rv(a) + rv(b);
+pub broadcast axiom fn ax_rv_sub(a: f64, b: f64) ensures rv(#[trigger] fsub(a, b)) == rv(a) - rv(b);
+pub broadcast axiom fn ax_rv_mul(a: f64, b: f64) ensures rv(#[trigger] fmul(a, b)) == rv(a) * rv(b);
+pub broadcast axiom fn ax_rv_div(a: f64, b: f64) ensures rv(b) != 0real ==> rv(#[trigger] fdiv(a, b)) == rv(a) / rv(b);
+pub broadcast axiom fn ax_rv_neg(a: f64) ensures rv(#[trigger] fneg(a)) == 0real - rv(a);
+pub broadcast axiom fn ax_rv_cmp(a: f64, b: f64)
+    ensures #[trigger] fcmp(a, b) == (if rv(a) < rv(b) { Some(core::cmp::Ordering::Less) }
+        else if rv(a) == rv(b) { Some(core::cmp::Ordering::Equal) } else { Some(core::cmp::Ordering::Greater) });
+pub broadcast axiom fn ax_rv_eq(a: f64, b: f64) ensures #[trigger] feq(a, b) == (rv(a) == rv(b));
+pub broadcast axiom fn ax_rv_max(a: f64, b: f64) ensures rv(#[trigger] fmaxf(a, b)) == (if rv(a) >= rv(b) { rv(a) } else { rv(b) });
+pub broadcast axiom fn ax_rv_min(a: f64, b: f64) ensures rv(#[trigger] fminf(a, b)) == (if rv(a) <= rv(b) { rv(a) } else { rv(b) });
+// (idealised) powf denotes a function of the real values of its arguments
+pub uninterp spec fn rpow(x: real, y: real) -> real;
+pub broadcast axiom fn ax_rv_powf(a: f64, b: f64) ensures rv(#[trigger] fpowf(a, b)) == rpow(rv(a), rv(b));
+pub axiom fn ax_rv_lits()
+    ensures rv(0.0f64) == 0real, rv(1.0f64) == 1real, rv(2.0f64) == 2real, rv(0.5f64) * 2real == 1real;
+pub broadcast group ideal {
+    ax_rv_add, ax_rv_sub, ax_rv_mul, ax_rv_div, ax_rv_neg, ax_rv_cmp, ax_rv_eq, ax_rv_max, ax_rv_min, ax_rv_powf
+}
+// (idealised) integer-to-float casts are exact
+pub broadcast axiom fn ax_rv_u64(n: u64) ensures rv(#[trigger] u64_to_f64(n)) == n as real;
+pub broadcast axiom fn ax_rv_usize(n: usize) ensures rv(#[trigger] usize_to_f64(n)) == n as real;
+pub broadcast group ideal_casts { ax_rv_u64, ax_rv_usize }
+
 use vstd::std_specs::iter::{zip_iter_snd, zip_iter_fst};
 #[derive(Copy, Clone)]
 pub enum PlayerNum { One, Two }
@@ -166,8 +202,8 @@ pub trait ActiveInfo {
     fn recurse<F: Fn(&Node) -> f64>(&mut self, player: &Player, rec: F) -> f64;
 }
 // expected utility under the current strategy, accumulated left to right: e_{k+1} = e_k + sigma_k * u_k
-pub open spec fn ext_expected(strat: Seq<f64>, us: Seq<f64>, k: int) -> f64 decreases k {
-    if k <= 0 { 0.0f64 } else { fadd(ext_expected(strat, us, k - 1), fmul(strat[k - 1], us[k - 1])) }
+pub open spec fn ext_expected(strat: Seq<f64>, us: Seq<f64>, k: int) -> real decreases k {
+    if k <= 0 { 0real } else { ext_expected(strat, us, k - 1) + rv(strat[k - 1]) * rv(us[k - 1]) }
 }
 
 // ---- extracted from src/lib.rs: enum Node ----
@@ -217,13 +253,13 @@ fn recurse<F: Fn(&Node) -> f64>(&mut self, player: &Player, rec: F) -> (out: f64
         // cumulative regret grows by u_a minus that expectation (no reach weighting in external sampling)
         exists|us: Seq<f64>| us.len() == player.actions@.len()
             && (forall|a: int| 0 <= a < us.len() ==> rec.ensures((&#[trigger] player.actions@[a],), us[a]))
-            && out == ext_expected(old(self).reg.strat@, us, us.len() as int)
-            && (forall|a: int| 0 <= a < us.len() ==> #[trigger] final(self).reg.cum_regret@[a]
-                    == fsub(fadd(old(self).reg.cum_regret@[a], us[a]), out)), // @ob C08.V.external.recurse
+            && rv(out) == ext_expected(old(self).reg.strat@, us, us.len() as int)
+            && (forall|a: int| 0 <= a < us.len() ==> rv(#[trigger] final(self).reg.cum_regret@[a])
+                    == rv(old(self).reg.cum_regret@[a]) + rv(us[a]) - rv(out)), // @ob C08.V.external.recurse
 {
-broadcast use fl;
+broadcast use fl; broadcast use ideal;
 proof {
-    ax_obeys();
+    ax_obeys(); ax_rv_lits();
     assume(player.actions@.len() == self.reg.strat@.len() && self.reg.strat@.len() == self.reg.cum_regret@.len());
     assume(forall|n: &Node| rec.requires((n,)));
 }
@@ -251,13 +287,13 @@ invariant
         && *((it.snapshot@.remaining()[i]).0).1 == st[i] && *(it.snapshot@.remaining()[i]).1 == c0[i],
     forall|i: int| 0 <= i < n ==> rec.requires((((#[trigger] it.snapshot@.remaining()[i]).0).0,)),
     forall|i: int| 0 <= i < it.index@ ==> rec.ensures((&#[trigger] acts[i],), us[i]),
-    forall|i: int| 0 <= i < it.index@ ==> *final((#[trigger] it.snapshot@.remaining()[i]).1) == fadd(c0[i], us[i]),
-    expected == ext_expected(st, us, it.index@),
+    forall|i: int| 0 <= i < it.index@ ==> rv(*final((#[trigger] it.snapshot@.remaining()[i]).1)) == rv(c0[i]) + rv(us[i]),
+    rv(expected) == ext_expected(st, us, it.index@),
 ensures
-    forall|i: int| 0 <= i < n ==> *final(#[trigger] zip_iter_snd(it.snapshot@).remaining()[i]) == fadd(c0[i], us[i]),
+    forall|i: int| 0 <= i < n ==> rv(*final(#[trigger] zip_iter_snd(it.snapshot@).remaining()[i])) == rv(c0[i]) + rv(us[i]),
 {
-broadcast use fl;
-proof { ax_obeys(); }
+broadcast use fl; broadcast use ideal;
+proof { ax_obeys(); ax_rv_lits(); }
 let ghost us0 = us;
 
             let util = rec(next);
@@ -265,6 +301,7 @@ let ghost us0 = us;
             *cum_reg = *cum_reg + ( util);
         
 proof {
+    assert(rv(util) * rv(*prob) == rv(*prob) * rv(util)) by(nonlinear_arith);
     us = us0.push(util);
     assert(forall|i: int| 0 <= i < us0.len() ==> us[i] == us0[i]);
     assert(ext_expected(st, us, us0.len() as int) == ext_expected(st, us0, us0.len() as int)) by {
@@ -280,12 +317,12 @@ invariant
     it2.snapshot@.remaining().len() == n,
     0 <= it2.index@ <= n,
     forall|i: int| 0 <= i < n ==> *(#[trigger] it2.snapshot@.remaining()[i]) == mid[i],
-    forall|i: int| 0 <= i < it2.index@ ==> *final(#[trigger] it2.snapshot@.remaining()[i]) == fsub(mid[i], expected),
+    forall|i: int| 0 <= i < it2.index@ ==> rv(*final(#[trigger] it2.snapshot@.remaining()[i])) == rv(mid[i]) - rv(expected),
 ensures
-    forall|i: int| 0 <= i < n ==> *final(#[trigger] it2.snapshot@.remaining()[i]) == fsub(mid[i], expected),
+    forall|i: int| 0 <= i < n ==> rv(*final(#[trigger] it2.snapshot@.remaining()[i])) == rv(mid[i]) - rv(expected),
 {
-broadcast use fl;
-proof { ax_obeys(); }
+broadcast use fl; broadcast use ideal;
+proof { ax_obeys(); ax_rv_lits(); }
 
             *cum_reg = *cum_reg - ( expected);
         }
@@ -293,8 +330,8 @@ proof {
     let w = us;
     assert(w.len() == player.actions@.len() && acts == player.actions@);
     assert(forall|a: int| 0 <= a < w.len() ==> rec.ensures((&#[trigger] player.actions@[a],), w[a]));
-    assert(expected == ext_expected(st, w, w.len() as int));
-    assert(forall|a: int| 0 <= a < w.len() ==> #[trigger] self.reg.cum_regret@[a] == fsub(fadd(c0[a], w[a]), expected));
+    assert(rv(expected) == ext_expected(st, w, w.len() as int));
+    assert(forall|a: int| 0 <= a < w.len() ==> rv(#[trigger] self.reg.cum_regret@[a]) == rv(c0[a]) + rv(w[a]) - rv(expected));
 }
 
         expected
@@ -314,7 +351,7 @@ pub proof fn lemma_ext_expected_prefix(st: Seq<f64>, a: Seq<f64>, b: Seq<f64>, k
 pub proof fn __canary_must_fail()
     ensures false, // @ob __canary
 {
-    broadcast use fl; ax_obeys();
+    broadcast use fl; broadcast use ideal; ax_obeys(); ax_rv_lits();
 }
 
 } // verus!
